@@ -139,7 +139,7 @@ def register(reg):
     for occ, side, fld in ((0, 0, "start"), (1, 1, "end")):
         reg.add(Contract(
             file=GFA, func="GFA.write_gfa", variant="#L-line-from-%s" % fld, fragment=("if n[1] == 0:", 1, occ),
-            params=dict(n=Edge, n1=STR, overlap=STR, tags=ListT(STR), edges=ListT(LINE)), module_env={"E_DIR": E_DIR_value},
+            params=dict(n=Edge, n1=STR, overlap=STR, tags=ListT(STR), edges=ListT(LINE)), module_env={"E_DIR": E_DIR_value}, modifies=["edges"],
             locals=dict(edge=LINE), requires=["n[1] == 0 or n[1] == 1"],
             ensures={
                 "one-line-appended": "len(edges) == len(old(edges)) + 1 and forall(lambda k: implies(0 <= k < len(old(edges)), edges[k] == old(edges)[k]))",
@@ -183,3 +183,33 @@ def lemma_reversal(reg, repo):
     o2.inputs = []
     outs.append(o2)
     return outs
+
+
+# ---- get_path: the per-contig segment lists handed to search_intervals are sorted by SO (boundary precondition of C01/C03) ---------
+_C2N = DictT(STR, ListT(STR))
+
+
+def _empty_list_default(eng):
+    return Val(ListT(STR).empty(), ListT(STR))
+
+
+_C2N.default = _empty_list_default
+GFAPath = ObjT("GFA", nodes=DictT(STR, Node), contig_to_nodes=_C2N)
+GFAPath.name = "Obj<GFAPathView>"
+
+
+def register_get_path(reg):
+    reg.add(Contract(file=GFA, func="GFA.list_is_path", params=dict(self=GFAPath, node_list=ListT(STR)), returns=BOOL, trusted=True, variant="#caller",
+                     notes="caller view: any boolean (whether the sorted segments happen to be linked in a row)"))
+    reg.add(Contract(
+        file=GFA, func="GFA.get_path", params=dict(self=GFAPath, chrom=STR, throw_warning=BOOL), returns=ListT(STR),
+        ghost=dict(sort_perm=MapT(INT, INT), sort_perm_inv=MapT(INT, INT)),
+        spec_funcs={"so": "lambda x: int(self.nodes[x].tags['SO'][1])", "segs": "lambda: self.contig_to_nodes[chrom]"},
+        requires=["chrom in self.contig_to_nodes"],
+        ensures={
+            "sorted-by-SO": "forall(lambda i, j: implies(0 <= i < j < len(result), so(result[i]) <= so(result[j])))",
+            "all-segments-of-the-contig-when-not-strict": "implies(not throw_warning, len(result) == len(segs()) and "
+                                                          "forall(lambda i: implies(0 <= i < len(segs()), 0 <= sort_perm[i] < len(result) and result[sort_perm[i]] == segs()[i])))",
+            "empty-or-all-segments": "len(result) == 0 or len(result) == len(segs())",
+        },
+    ))
